@@ -51,7 +51,12 @@ def anchor_oracle(chk, names, per_file):
     chk.log(f"oracle anchored on {res['events']} KAT vectors ({', '.join(names)})")
 
 
+SHARED_PREFIX = bytes(range(0xA0, 0xB0))
+
+
 def mkkey(r, n, cls):
+    if cls == 'p':          # keys that share their first 16 bytes with other keys of the same run
+        return (SHARED_PREFIX + r.bytes(n - 16)) if n > 16 else r.bytes(n)
     if cls == 'z':
         return bytes(n)
     if cls == 'f':
@@ -66,7 +71,10 @@ def mkkey(r, n, cls):
 
 def shape_data(r, sh):
     v = sh['v']
-    return dict(k=mkkey(r, KLEN[v], sh.get('kcls', 'r')), n=mkkey(r, 12, sh.get('kcls', 'r') if r.randint(0, 1) else 'r'),
+    kc = sh.get('kcls', 'r')
+    if kc == 'r' and v > 128 and (sh.get('adlen', 0) + sh.get('mlen', 0)) % 5 == 0:
+        kc = 'p'
+    return dict(k=mkkey(r, KLEN[v], kc), n=mkkey(r, 12, sh.get('kcls', 'r') if r.randint(0, 1) else 'r'),
                 ad=r.bytes(sh['adlen'], sh.get('cls', 'r')), m=r.bytes(sh['mlen'], sh.get('cls', 'r')))
 
 
@@ -150,6 +158,10 @@ def roundtrip_plan(chk, exe, mode, shapes, builds_extra=()):
             if o is None:
                 continue
             g.append(dec_line(f"d{i}", mode, shapes[i], datas[i], bytes(o['out'])))
+            if i % 9 == 0 and not shapes[i].get('alias'):
+                # separate buffers that touch: plaintext right behind the packet, packet right behind the plaintext
+                g.append(dec_line(f"d{i}adj1", mode, shapes[i], datas[i], bytes(o['out'])) + " adj=1")
+                g.append(dec_line(f"d{i}adj2", mode, shapes[i], datas[i], bytes(o['out'])) + " adj=2")
         groups.append(g)
     faults = [e for e in ev1 if e.get('e') == 'Fault']
     return groups, faults
@@ -170,11 +182,13 @@ def check_roundtrip(chk, mode):
     chk.cov['plan_shapes'] = len(shapes)
     groups, faults = roundtrip_plan(chk, exe, mode, shapes)
     execs, lines = run_groups(chk, exe, groups)
-    if chk.thorough:
-        # the same plan on the other build configurations; only events that differ from prod's are new to TLC
+    if True:
+        # the same plan on other build configurations; only events that differ from prod's are new to TLC
         base = {json.dumps({k: v for k, v in e.items()}, sort_keys=True) for ex in execs for e in ex}
-        for cfg in ('dbg', 'alt', 'alt3', 'shared', 'o2'):
+        for cfg in (('dbg', 'alt', 'alt3', 'shared', 'o2', 'os', 'portable', 'uchar') if chk.thorough else ('portable', 'uchar', 'os')):
             exe2 = build_driver(chk.wd, cfg)
+            if exe2 is None:
+                continue
             chk.cov['builds'].append(cfg)
             ex2, _ = run_groups(chk, exe2, groups)
             n_new = 0
@@ -245,7 +259,7 @@ def check_C02(chk):
             n = bytearray(12)
             n[b // 8] |= 1 << (b % 8)
             lines.append(enc_line(f"nb{v}-{b}", 'aead', dict(v=v), dict(k=r.bytes(kb), n=bytes(n), ad=b'', m=r.bytes(5)), keep=0))
-    cfgs = ['prod', 'alt3', 'shared', 'dbg', 'portable'] + (['alt', 'alt0', 'o1', 'o2', 'os'] if chk.thorough else [])
+    cfgs = ['prod', 'alt3', 'shared', 'dbg', 'portable', 'uchar', 'os'] + (['alt', 'alt0', 'o1', 'o2'] if chk.thorough else [])
     groups = chunks(lines, 24)
     execs, seen = [], set()
     plans = []
@@ -464,7 +478,25 @@ def check_C04(chk):
                          f"mlen={sh['mlen']} tamper={sh['tam']} pos={pos} alias={sh['alias']} pf={sh['pf']} cls={r.choice('rhf')}")
     groups = chunks(lines, 400)
     execs, _ = run_groups(chk, exe, groups)
-    judge(chk, exe, execs, lambda xi: [f"reset id=x{xi}"] + groups[xi], cost=lambda e: 1)
+    # the same packets on other build configurations (identical executions are judged once)
+    seen = {json.dumps(ex, sort_keys=True) for ex in execs}
+    ngroups = len(groups)
+    for cfg in (('ndebug', 'uchar', 'portable', 'alt3') + (('dbg', 'os', 'shared', 'alt') if chk.thorough else ())):
+        exe2 = build_driver(chk.wd, cfg)
+        if exe2 is None:
+            continue
+        chk.cov['builds'].append(cfg)
+        ex2, _ = run_groups(chk, exe2, groups[:ngroups])
+        for ex in ex2:
+            key = json.dumps(ex, sort_keys=True)
+            if key not in seen:
+                seen.add(key)
+                for e in ex:
+                    e['id'] = f"{cfg}:{e.get('id')}"
+                execs.append(ex)
+                groups.append(None)
+    judge(chk, exe, execs, lambda xi: ([f"reset id=x{xi}"] + groups[xi]) if groups[xi] else None, cost=lambda e: 1)
+    groups = groups[:ngroups]
     nrej = sum(1 for ex in execs for e in ex if e.get('e') == 'DecBig' and e.get('res') == -1)
     chk.cov['rejected_packets'] = nrej
     if nrej == 0:
@@ -532,6 +564,19 @@ def check_C09(chk):
                 g.append(enc_line(f"f{fi}-{mode}-{mi}", mode, dict(v=f['v'], alias=mi % 2), dict(d, ad=ad, m=m), keep=1))
             groups.append(g)
     execs, _ = run_groups(chk, exe, groups)
+    base = {json.dumps(ex, sort_keys=True) for ex in execs}
+    for cfg in (('portable', 'uchar', 'os', 'alt3', 'dbg', 'shared') if chk.thorough else ('portable', 'uchar')):
+        exe2 = build_driver(chk.wd, cfg)
+        if exe2 is None:
+            continue
+        chk.cov['builds'].append(cfg)
+        ex2, _ = run_groups(chk, exe2, groups[:len(execs)])
+        for gi, ex in enumerate(ex2):
+            if json.dumps(ex, sort_keys=True) not in base:
+                for e in ex:
+                    e['id'] = f"{cfg}:{e.get('id')}"
+                execs.append(ex)
+                groups.append([])
     kx = kat_program_traces(chk, ['TinyJAMBU-128-SIV', 'TinyJAMBU-192-SIV', 'TinyJAMBU-256-SIV'], 1.0 if chk.thorough else 0.03)
     execs += kx
     groups += [[] for _ in kx]
